@@ -128,8 +128,15 @@ Terminates      == <>Done
 (***************************************************************************)
 (* Emission: one JSON line per finished scenario (contract's prediction)   *)
 (***************************************************************************)
+\* the values when single-output component k is SUPPLIED (a variable whose current value, 100, is given by the
+\* caller instead of being computed): everything naming it must see that value
+Given(k) ==
+    LET rest == Comps \ {k}
+    IN GValues(rest, [j \in rest |-> Prov(j)], [j \in rest |-> req[j]], Rank, BEnv @@ (k :> 100))
+
 Scenario ==
     [req    |-> [k \in Comps |-> req[k]],
+     given  |-> IF OutcomeKinds(req) = {"ok"} THEN [k \in Comps \ {"s"} |-> Given(k)] ELSE [n \in {} |-> 0],
      ord    |-> ord,
      kinds  |-> OutcomeKinds(req),
      missing|-> [k \in {j \in Comps : Missing(req)[j] # {}} |-> Missing(req)[k]],
